@@ -99,7 +99,7 @@ def drive(ctx, pid, modes):
                     stats[e["res"]] = stats.get(e["res"], 0) + 1
         ctx.notes.append("%s: %d executions, results of the writers: %s" % (mode, len(mine), json.dumps(stats, sort_keys=True)))
         if mine:
-            t = mine[len(mine) // 2]
+            t = max(mine[len(mine) // 2:][:5], key=lambda x: len(x["events"]))
             ctx.sample({"mode": mode, "consts": {k: v for k, v in t["consts"].items() if k != "init"},
                         "events": [{k: v for k, v in e.items() if k not in ("obs", "reads", "detail", "dl_detail")} for e in t["events"]][:14]}, limit=4)
     validate(ctx, pid, traces, "+".join(m for m, n in modes))
